@@ -43,6 +43,8 @@ Constructs == <<
   C("pathrp",     "Rp'/a'",           "__xonsh__.path_literal(R'/a')", FALSE, TRUE),
   C("pathf",      "pf'/t{q}'",        "__xonsh__.path_literal(f'/t{q}')", FALSE, TRUE),
   C("pathfp",     "fP'/t{q}'",        "__xonsh__.path_literal(f'/t{q}')", FALSE, TRUE),
+  C("pathcat",    "p'/a' pf'/{q}'",   "__xonsh__.path_literal('/a' f'/{q}')", FALSE, TRUE),
+  C("pathcat2",   "pf'/{q}' 'x'",     "__xonsh__.path_literal(f'/{q}' 'x')", FALSE, TRUE),
   C("help",       "range?",           "__xonsh__.help(range)", FALSE, FALSE),
   C("superhelp",  "range??",          "__xonsh__.superhelp(range)", FALSE, FALSE),
   C("helpchain",  "range?.index?",    "__xonsh__.help(__xonsh__.help(range).index)", FALSE, FALSE),
@@ -63,6 +65,9 @@ Contexts == <<
   P("callarg", "f(", ")", "eval", "expr"),
   P("callarg2", "f(1, ", ", k=2)", "eval", "expr"),
   P("kwvalue", "f(k=", ")", "eval", "expr"),
+  P("callthenstr", "open(", ", 'r')", "eval", "expr"),
+  P("listthenstr", "[", ", 's', \"t\"]", "eval", "expr"),
+  P("strbefore", "('s', ", ")", "eval", "expr"),
   P("stararg", "f(*", ")", "eval", "expr"),
   P("dstararg", "f(**", ")", "eval", "expr"),
   P("nestedcall", "g(h(", "))", "eval", "expr"),
